@@ -49,7 +49,7 @@ func txHashOf(i int) common.Hash {
 	}
 	return common.BigToHash(big.NewInt(int64(0x7700 + i)))
 }
-func preHashOf(i int) common.Hash { return common.BigToHash(big.NewInt(int64(0x5500 + i))) }
+func preHashOf(i int) common.Hash  { return common.BigToHash(big.NewInt(int64(0x5500 + i))) }
 func wordStr(h common.Hash) string { return new(big.Int).SetBytes(h[:]).String() }
 
 // op is one recorded operation (also the replay unit).
@@ -223,7 +223,12 @@ func (e *env) full(st *state.StateDB) string {
 	return fmt.Sprintf("%s R%d %s P%s", strings.Join(accts, " "), st.GetRefund(), strings.Join(lg, " "), strings.Join(pi, "."))
 }
 
-func (e *env) dump(st *state.StateDB, spec string) string {
+func (e *env) dump(st *state.StateDB, spec string) (res string) {
+	defer func() {
+		if r := recover(); r != nil {
+			res = "PANIC-IN-GETTER"
+		}
+	}()
 	switch {
 	case spec == "F":
 		return e.full(st)
@@ -359,20 +364,21 @@ func main() {
 }
 
 type caseRun struct {
-	o       *out.Out
-	r       *gen.Rand
-	e       *env
-	lin     map[int]*lineage
-	ops     []op     // everything executed, in order (for the snapshot-tree replay)
-	lines   []string // observed lines
-	last    map[int]string // last full dump per handle
-	touched map[int]bool   // handle operated on since its last full dump
-	step    int
-	kinds   strings.Builder
-	results strings.Builder
-	nextH   int
-	commits []int // labels of committed roots
-	sparse  bool
+	o           *out.Out
+	r           *gen.Rand
+	e           *env
+	lin         map[int]*lineage
+	ops         []op           // everything executed, in order (for the snapshot-tree replay)
+	lines       []string       // observed lines
+	last        map[int]string // last full dump per handle
+	touched     map[int]bool   // handle operated on since its last full dump
+	step        int
+	kinds       strings.Builder
+	results     strings.Builder
+	nextH       int
+	commits     []int // labels of committed roots
+	sparse      bool
+	prevTouched bool // the handle had been operated on since its last full dump when the current op started
 }
 
 // do executes p on the main environment, records it, and runs the per-op oracles.
@@ -396,6 +402,9 @@ func (cr *caseRun) do(p op) string {
 	if p.dump != "N" {
 		d = e.dump(e.hs[target], p.dump)
 	}
+	if d == "PANIC-IN-GETTER" {
+		cr.o.Fail(cr.step, "panic", "a getter panicked after "+p.code)
+	}
 	line := res + "|" + d
 	cr.o.Op(p.line(), line)
 	cr.o.Count("op." + p.code)
@@ -403,6 +412,7 @@ func (cr *caseRun) do(p op) string {
 	cr.ops = append(cr.ops, p)
 	cr.lines = append(cr.lines, line)
 	// --- lineage + oracles
+	cr.prevTouched = cr.touched[p.h]
 	mut := true
 	switch p.code {
 	case "DU", "CP", "NW":
@@ -449,6 +459,16 @@ func (cr *caseRun) do(p op) string {
 			}
 		}
 	case "FI", "IR", "CM":
+		if prev, ok := cr.last[p.h]; ok && !cr.prevTouched && p.dump == "F" && l.ok && !pan {
+			// prev is the dump taken immediately before this operation
+			bs, as := suicidedExists(prev), suicidedExists(d)
+			for ai, b := range bs {
+				if b[1] && as[ai][0] {
+					cr.o.Fail(cr.step, "suicided-survives", fmt.Sprintf("account %d was self-destructed before %s but still exists afterwards", ai, p.code))
+				}
+			}
+			cr.o.Count("oracle.suicide-finalise-checked")
+		}
 		l.ops = append(l.ops, p)
 		l.valid, l.marks = nil, nil
 		l.snapDump = map[int]string{}
@@ -593,6 +613,37 @@ func runCase(o *out.Out, r *gen.Rand, c int) {
 	}
 }
 
+// suicidedExists parses a full dump: account id -> (exists, suicided).
+func suicidedExists(d string) map[int][2]bool {
+	m := map[int][2]bool{}
+	for _, tok := range strings.Fields(d) {
+		if !strings.HasPrefix(tok, "A") {
+			continue
+		}
+		var ai int
+		colon := strings.Index(tok, ":")
+		if colon < 0 {
+			continue
+		}
+		fmt.Sscan(tok[1:colon], &ai)
+		f := strings.Split(tok[colon+1:], ",")
+		if len(f) < 6 {
+			continue
+		}
+		m[ai] = [2]bool{f[0][0] == '1', f[5] == "1"}
+	}
+	return m
+}
+
+func indexOf(l []int, x int) int {
+	for i, v := range l {
+		if v == x {
+			return i
+		}
+	}
+	return 0
+}
+
 func (cr *caseRun) spec(a, k int) string {
 	if !cr.sparse || cr.r.Chance(1, 8) {
 		return "F"
@@ -688,6 +739,22 @@ func (cr *caseRun) generate() {
 			live = append(live, cur)
 		}
 	}
+	// directed boundary family: reverted touch of the existing empty RIPEMD account, then IntermediateRoot(true)
+	if r.Chance(1, 20) {
+		cr.do(op{h: cur, code: "AB", a: ripemdID, v: 0, dump: cr.spec(ripemdID, -1)})
+		cr.commitAndReopen(cur, false)
+		if nh := cr.nextH - 1; e.hs[nh] != nil {
+			cur = nh
+			live = append(live, nh)
+			res := cr.do(op{h: cur, code: "SN", dump: "F"})
+			var id int
+			fmt.Sscanf(res, "i%d", &id)
+			cr.do(op{h: cur, code: "AB", a: ripemdID, v: 0, dump: cr.spec(ripemdID, -1)})
+			cr.do(op{h: cur, code: "RV", v: int64(id), dump: "F"})
+			cr.do(op{h: cur, code: "IR", v: 1, dump: "F"})
+			cr.o.Count("family.ripemd-reverted-touch")
+		}
+	}
 	nops := 10 + r.Intn(60)
 	if *out.Tier == "thorough" && r.Chance(1, 10) {
 		nops += 60
@@ -701,7 +768,7 @@ func (cr *caseRun) generate() {
 		l := cr.lin[h]
 		a := ua[r.Intn(3)]
 		k := uk[r.Intn(3)]
-		switch r.Pick(4, 8, 4, 3, 4, 4, 14, 4, 3, 2, 3, 2, 2, 3, 4, 2, 9, 9, 4, 4, 2, 2, 2, 2) {
+		switch r.Pick(4, 8, 4, 3, 4, 4, 14, 4, 3, 2, 3, 2, 2, 3, 4, 2, 9, 9, 4, 4, 2, 2, 6, 2) {
 		case 0:
 			cr.do(op{h: h, code: "CA", a: a, dump: cr.spec(a, -1)})
 		case 1:
@@ -824,6 +891,9 @@ func (cr *caseRun) generate() {
 		case 22:
 			// look at another handle: must be unchanged by the work done elsewhere
 			oh := live[r.Intn(len(live))]
+			if oh == h && len(live) > 1 {
+				oh = live[(r.Intn(len(live)-1)+1+indexOf(live, h))%len(live)]
+			}
 			cr.do(op{h: oh, code: "DU", dump: "F"})
 		case 23:
 			// re-open a previously committed root
